@@ -39,8 +39,8 @@ var rulesKeyOpt = statekey.Options{Skip: map[string]bool{"config": true, "receiv
 var rulesKeyOptFull = statekey.Options{Skip: map[string]bool{"config": true, "receiver": true}}
 
 type rwitness struct {
-	Warmup []ev.E `json:"warmup_then_reset,omitempty"`
-	Events []ev.E `json:"events"` // accepted prefix followed by the deciding event
+	Warmup []ev.E            `json:"warmup_then_reset,omitempty"`
+	Events []ev.E            `json:"events"` // accepted prefix followed by the deciding event
 	Config map[string]uint64 `json:"config,omitempty"`
 }
 
